@@ -8,6 +8,7 @@ from .. import paths
 from ..core import FUNC, call_attr, calls_in, dotted, norm, text, walk_local
 
 EXPLANATION = [
+    'C04.over-report: on every path of on_packets_completed the amount subtracted from the global in-flight counter equals (as a linear form over entry values) the amount by which the connection\'s own counter dropped; reports for unknown handles change nothing.',
     'C04.credit-guard: in DataPacketQueue._check_queue every hand-over to the '
     'controller is dominated by `_in_flight < max_in_flight`; each loop '
     'iteration pops one packet, sends exactly that packet once and increments '
@@ -425,7 +426,46 @@ def wiring(ctx):
             f'flushes {queues} for the disconnected handle', f'disconnection does not flush all three data queues (flushed: {queues})', p.loc(dce))
 
 
+
+def over_report(ctx):
+    """What a completion report releases globally is what it released for its connection."""
+    from .. import sym
+    R, p = ctx.r, ctx.p
+    rule = 'C04.over-report'
+    fn = p.find('bumble.host.DataPacketQueue.on_packets_completed')
+    if fn is None:
+        R.bad(rule, 'bumble.host.DataPacketQueue.on_packets_completed', 'anchor missing')
+        return
+    res = paths.run(fn, sym.Sym(no_subst=sym.object_locals(fn)), sym.Sym.init())
+    n = 0
+    bad = []
+    for k, facts, store, extra, w in sym.exits(res):
+        g = store.get('self._in_flight')
+        c = store.get('connection_state.in_flight')
+        if g is None and c is None:
+            continue  # unknown handle: nothing changes
+        n += 1
+        conn_rel = None
+        if c is not None:
+            lc = sym.lin(c)
+            if c == '0':
+                conn_rel = {'at(connection_state.in_flight, 0)': 1}
+            elif lc is not None and lc.get('at(connection_state.in_flight, 0)') == 1:
+                conn_rel = {a: -v for a, v in lc.items() if a != 'at(connection_state.in_flight, 0)'}
+        if g == '0':
+            continue  # global counter clamped: nothing more can be released
+        lg = sym.lin(g) if g is not None else None
+        glob_rel = {a: -v for a, v in lg.items() if a != 'at(self._in_flight, 0)'} if lg is not None and lg.get('at(self._in_flight, 0)') == 1 else None
+        if conn_rel is None or glob_rel is None or not sym.lin_eq(conn_rel, glob_rel):
+            bad.append(f'connection releases {conn_rel}, queue releases {glob_rel} ({" ".join(w)})')
+    R.check(n >= 2 and not bad, rule, 'bumble.host.DataPacketQueue.on_packets_completed | global release equals per-connection release', f'{n} paths: the global in-flight counter drops by exactly what the connection\'s counter dropped',
+            'a completion report releases more buffers globally than the reported connection had in flight: credits held by other connections are freed and the host overruns the controller\'s advertised buffer count', p.loc(fn), bad[:3])
+    s = norm(fn)
+    R.check('if connection_handle not in self._connection_state:' in s, rule, 'bumble.host.DataPacketQueue.on_packets_completed | unknown handle', 'reports for unknown handles are ignored', 'completion reports for unknown handles are no longer ignored', p.loc(fn))
+
+
 RULES = [
+    ('C04.over-report', over_report),
     ('C04.credit-guard', credit_guard),
     ('C04.pump', pump),
     ('C04.fifo', fifo),
@@ -460,4 +500,6 @@ VARIANTS = [
      "queue.on_packets_completed(num_completed_packets, connection_handle)", "queue.on_packets_completed(connection_handle, num_completed_packets)", 'fire', 'C04.wiring'),
     ('benign: debug log moved', 'bumble/host.py',
      "        self._queued += 1\n        self._check_queue()\n", "        self._queued += 1\n        self._check_queue()\n        logger.debug('queued')\n", 'silent', ''),
+    ('over-report releases the full reported count globally', 'bumble/host.py', "            packet_count = connection_state.in_flight\n            connection_state.in_flight = 0\n", "            connection_state.in_flight = 0\n", 'fire', 'C04.over-report'),
+    ('benign: clamp written with min()', 'bumble/host.py', "        if packet_count <= connection_state.in_flight:\n            connection_state.in_flight -= packet_count\n        else:", "        if connection_state.in_flight >= packet_count:\n            connection_state.in_flight -= packet_count\n        else:", 'silent', ''),
 ]
